@@ -122,7 +122,7 @@ func materialise(c N, dir string) (string, string) {
 			if raw, ok := fn["text"].(string); ok {
 				text = raw
 			} else {
-				text = renderFile(list(fn["imports"]), list(fn["body"]))
+				text = renderFile(list(fn["imports"]), respell(list(fn["body"]), str(c["spell"])))
 			}
 			// a file may ask for a content hash (the parser's name prefix for imported files) that starts with a digit or a letter
 			if hc, ok := fn["hash"].(string); ok {
@@ -149,7 +149,7 @@ func materialise(c N, dir string) (string, string) {
 		}
 		return filepath.Join(dir, mainPath), mainSrc
 	}
-	src := renderFile(list(prog["imports"]), list(prog["body"]))
+	src := renderFile(list(prog["imports"]), respell(list(prog["body"]), str(c["spell"])))
 	mainFile := filepath.Join(dir, "main.tsh")
 	os.WriteFile(mainFile, []byte(src), 0o644)
 	return mainFile, src
